@@ -961,27 +961,438 @@ Definition generate (E : env) (ffuel mfuel : nat) (doc : yaml) (dyn : dynamic) :
     end
   end.
 
+(* ================================================================== error messages: str.format *)
+(* The wrappers build their messages from text the recipe supplies (table names, nicknames, field names,
+   function names, variable names, definitions) and from the message of the exception they wrap.  Two ways of
+   building are in use: concatenation (Python f-strings: total) and str.format over a CONSTANT template whose
+   `{}` / `{e}` fields receive the user's text as arguments (fix_exception).  str.format is modelled as the
+   partial function it is: a lone brace, a field that names a missing argument or keyword raise ValueError /
+   IndexError / KeyError.  Fragment: field names that are empty, decimal or plain keys; conversions (`!r`),
+   format specs (`:>5`), attribute / index access (`a.b`, `a[0]`) and non-ASCII field names are Unsupported
+   (a model artefact, never reached by the templates of the code). *)
+Inductive fstate := SLit | SOpen | SClose | SField (acc : string).   (* acc: the field name so far, reversed *)
+Inductive numbering := NUnset | NAuto (next : nat) | NManual.
+
+Definition fmt_error {A} (exc : string) : result A := Err (Internal exc).
+
+Definition is_digit (c : ascii) : bool := let n := N_of_ascii c in N.leb 48 n && N.leb n 57.
+Definition is_ascii7 (c : ascii) : bool := N.ltb (N_of_ascii c) 128.
+
+Fixpoint digits_value (s : string) (acc : nat) : nat :=
+  match s with
+  | EmptyString => acc
+  | String c r => digits_value r (10 * acc + (N.to_nat (N_of_ascii c) - 48))%nat
+  end.
+
+(* get_field_object / field_name_split: automatic numbering, explicit index, keyword *)
+Definition resolve_field (name : string) (num : numbering) (args : list string) (kw : list (string * string))
+  : result (string * numbering) :=
+  match name with
+  | EmptyString =>
+    match num with
+    | NManual => fmt_error "ValueError"          (* cannot switch from manual field specification to automatic *)
+    | NUnset => match nth_error args 0 with Some v => Ok (v, NAuto 1) | None => fmt_error "IndexError" end
+    | NAuto n => match nth_error args n with Some v => Ok (v, NAuto (S n)) | None => fmt_error "IndexError" end
+    end
+  | _ =>
+    if all_chars is_digit name then
+      if Nat.ltb 6 (String.length name) then Err Unsupported
+      else match num with
+           | NAuto _ => fmt_error "ValueError"   (* cannot switch from automatic field numbering to manual *)
+           | _ => match nth_error args (digits_value name 0) with
+                  | Some v => Ok (v, NManual)
+                  | None => fmt_error "IndexError"
+                  end
+           end
+    else match assoc name kw with Some v => Ok (v, num) | None => fmt_error "KeyError" end
+  end.
+
+Inductive faction := FaEnd | FaBad | FaUnsup | FaMore.
+(* one character inside a replacement field (parse_field) *)
+Definition field_char (c : ascii) : faction :=
+  if Ascii.eqb c "}"%char then FaEnd
+  else if Ascii.eqb c "{"%char then FaBad              (* unexpected '{' in field name *)
+  else if Ascii.eqb c "["%char || Ascii.eqb c "!"%char || Ascii.eqb c ":"%char || Ascii.eqb c "."%char
+          || negb (is_ascii7 c) then FaUnsup
+  else FaMore.
+
+(* MarkupIterator_next, character by character *)
+Fixpoint fmt_go (s : string) (st : fstate) (num : numbering) (args : list string) (kw : list (string * string))
+  : result string :=
+  match s with
+  | EmptyString =>
+    match st with
+    | SLit => Ok EmptyString
+    | _ => fmt_error "ValueError"     (* Single '{' / Single '}' encountered, expected '}' before end of string *)
+    end
+  | String c r =>
+    let in_field (acc : string) :=
+      match field_char c with
+      | FaEnd => do vn <- resolve_field (srev acc) num args kw;
+                do t <- fmt_go r SLit (snd vn) args kw;
+                Ok (fst vn ++ t)%string
+      | FaBad => fmt_error "ValueError"
+      | FaUnsup => Err Unsupported
+      | FaMore => fmt_go r (SField (String c acc)) num args kw
+      end in
+    match st with
+    | SLit =>
+      if Ascii.eqb c "{"%char then fmt_go r SOpen num args kw
+      else if Ascii.eqb c "}"%char then fmt_go r SClose num args kw
+      else do t <- fmt_go r SLit num args kw; Ok (String c t)
+    | SClose =>
+      if Ascii.eqb c "}"%char then do t <- fmt_go r SLit num args kw; Ok (String c t)
+      else fmt_error "ValueError"                     (* Single '}' encountered in format string *)
+    | SOpen =>
+      if Ascii.eqb c "{"%char then do t <- fmt_go r SLit num args kw; Ok (String c t)
+      else in_field EmptyString
+    | SField acc => in_field acc
+    end
+  end.
+
+(* template.format( *args, **kw ) *)
+Definition py_format (template : string) (args : list string) (kw : list (string * string)) : result string :=
+  fmt_go template SLit NUnset args kw.
+
+(* ------------------------------------------------------------------ exceptions with their text *)
+Record exnv := mkX {
+  x_cls : exn;            (* a DataGenError subclass | another class *)
+  x_msg : string;         (* .message of a DataGenError, str(e) of anything else *)
+  x_line : bool }.        (* a DataGenError that knows its line *)
+
+Definition is_dge (e : exnv) : bool := match x_cls e with EDGE => true | EPy _ => false end.
+(* a DataGenError made by a wrapper: it takes file and line from the object the wrapper belongs to *)
+Definition dge_at (m : string) : exnv := mkX EDGE m true.
+
+(* data_gen_exceptions.fix_exception(message, parentobj, e, args):
+   message.format( *args, e=origmessage ); a DataGenError keeps its class and gets file / line if it has none *)
+Definition fix_exception (message : string) (args : list string) (e : exnv) : result exnv :=
+  do m <- py_format message args [("e", x_msg e)];
+  Ok (dge_at m).
+
+Definition nl : string := String (ascii_of_N 10) EmptyString.
+(* the constant templates of the code *)
+Definition T_func : string := "Cannot evaluate function `{}`:" ++ nl ++ " {e}".
+Definition T_field : string := "Problem rendering field {}:" ++ nl ++ " {e}".
+Definition T_var : string := "Cannot evaluate variable `{}`:" ++ nl ++ " {e}".
+Definition T_parse : string := "Cannot parse value {}".
+
+(* *definition: FieldDefinition.exception_handling(message, *args) hands args[0] to fix_exception's `args`
+   parameter, so SimpleValue.evaluator's `self.definition` is spread character by character *)
+Fixpoint chars (s : string) : list string :=
+  match s with EmptyString => [] | String c r => String c EmptyString :: chars r end.
+
+(* ObjectTemplate.name *)
+Definition tmpl_name (table nick : string) : string :=
+  if nonempty nick then table ++ " (" ++ nick ++ ")" else table.
+Definition cannot_generate (table nick : string) : string := "Cannot generate " ++ tmpl_name table nick.
+
+(* the frames of `frame`, each with the text it works with *)
+Inductive iframe :=
+| IFSimpleRender                          (* DataGenNameError(e.message) / DataGenValueError(str(e)) *)
+| IFDefEHFunc (fname : string)            (* exception_handling(T_func, [function_name]) *)
+| IFDefEHCompile (definition : string)    (* exception_handling(T_parse, self.definition) *)
+| IFFieldFactory (field : string)         (* fix_exception(T_field, self, e, [self.name]) *)
+| IFTemplateEH (message : string)         (* DataGenError(f"{message} : {str(e)}"); DataGenErrors pass *)
+| IFVarEH (varname : string)              (* DataGenErrors pass; fix_exception(T_var, self, e, [varname]) *)
+| IFCountConv (definition : string)       (* DataGenValueError(f"Cannot evaluate {definition} as number") *)
+| IFGenerate.
+
+Definition erase (f : iframe) : frame :=
+  match f with
+  | IFSimpleRender => FSimpleRender
+  | IFDefEHFunc _ | IFDefEHCompile _ => FDefEH
+  | IFFieldFactory _ => FFieldFactory
+  | IFTemplateEH _ => FTemplateEH
+  | IFVarEH _ => FVarEH
+  | IFCountConv _ => FCountConv
+  | IFGenerate => FGenerate
+  end.
+
+(* what leaves the frame when e arrives: Ok e' = the exception e' is raised; Err (Internal X) = building the
+   message itself failed with X, which is what leaves the frame *)
+Definition wrap (f : iframe) (e : exnv) : result exnv :=
+  match f with
+  | IFSimpleRender => Ok (dge_at (x_msg e))
+  | IFDefEHFunc fname => fix_exception T_func [fname] e
+  | IFDefEHCompile d => fix_exception T_parse (chars d) e
+  | IFFieldFactory n => fix_exception T_field [n] e
+  | IFTemplateEH m => if is_dge e then Ok e else Ok (dge_at (m ++ " : " ++ x_msg e))
+  | IFVarEH v => if is_dge e then Ok e else fix_exception T_var [v] e
+  | IFCountConv d =>
+    if is_count_conversion_error (x_cls e) then Ok (dge_at ("Cannot evaluate " ++ d ++ " as number")) else Ok e
+  | IFGenerate => Ok e
+  end.
+
+(* an exception raised while a handler builds its message replaces the one being handled and travels on *)
+Definition wrap_or_replace (f : iframe) (e : exnv) : exnv :=
+  match wrap f e with
+  | Ok e' => e'
+  | Err (Internal x) => mkX (EPy x) "" false
+  | Err _ => mkX (EPy "<model>") "" false
+  end.
+
+(* the seeded variant of ObjectTemplate.exception_handling: the message, user text included, is the template *)
+Definition wrap_unified_template_eh (m : string) (e : exnv) : result exnv :=
+  if is_dge e then Ok e else fix_exception (m ++ " : {e}") [] e.
+
+(* steps and leaves with their text *)
+Inductive istep :=
+| ISVarExpr (varname : string)
+| ISNested
+| ISTmplForEach (table nick : string)
+| ISTmplCount (table nick definition : string)
+| ISTmplField (table nick field : string)
+| ISTmplFriend (table nick : string)
+| ISCallArg (fname : string).
+
+Inductive ileaf :=
+| ILCtxTmpl (table nick : string)
+| ILCtxVar (varname : string)
+| ILCompile (definition : string)
+| ILEval
+| ILPost
+| ILLookup
+| ILFunc (fname : string)
+| ILCountConv
+| ILForEachType (table nick : string)
+| ILRowSetup (table nick : string)
+| ILWrite (table nick : string).
+
+Definition erase_step (s : istep) : step :=
+  match s with
+  | ISVarExpr _ => SVarExpr | ISNested => SNested | ISTmplForEach _ _ => STmplForEach
+  | ISTmplCount _ _ _ => STmplCount | ISTmplField _ _ _ => STmplField | ISTmplFriend _ _ => STmplFriend
+  | ISCallArg _ => SCallArg
+  end.
+
+Definition erase_leaf (l : ileaf) : leaf :=
+  match l with
+  | ILCtxTmpl _ _ => LCtxTmpl | ILCtxVar _ => LCtxVar | ILCompile _ => LCompile | ILEval => LEval
+  | ILPost => LPost | ILLookup => LLookup | ILFunc _ => LFunc | ILCountConv => LCountConv
+  | ILForEachType _ _ => LForEachType | ILRowSetup _ _ => LRowSetup | ILWrite _ _ => LWrite
+  end.
+
+Definition M_for_each : string := "Cannot evaluate `for_each` definition".
+Definition M_field : string := "Problem rendering value".
+Definition M_write : string := "Cannot write row".
+
+Definition istep_frames (s : istep) : list iframe :=
+  match s with
+  | ISNested => []
+  | ISVarExpr v => [IFVarEH v]
+  | ISTmplForEach t n => [IFTemplateEH M_for_each; IFTemplateEH (cannot_generate t n)]
+  | ISTmplCount t n d => [IFCountConv d; IFTemplateEH (cannot_generate t n)]
+  | ISTmplField t n f =>
+    [IFFieldFactory f; IFTemplateEH M_field; IFTemplateEH (cannot_generate t n); IFTemplateEH (cannot_generate t n)]
+  | ISTmplFriend t n => [IFTemplateEH (cannot_generate t n); IFTemplateEH (cannot_generate t n)]
+  | ISCallArg fn => [IFDefEHFunc fn]
+  end.
+
+Definition ileaf_frames (l : ileaf) : list iframe :=
+  match l with
+  | ILPost | ILLookup | ILCountConv => []
+  | ILCtxTmpl t n => [IFTemplateEH (cannot_generate t n)]
+  | ILCtxVar v => [IFVarEH v]
+  | ILCompile d => [IFDefEHCompile d]
+  | ILFunc fn => [IFDefEHFunc fn]
+  | ILEval => [IFSimpleRender]
+  | ILForEachType t n => [IFTemplateEH M_for_each; IFTemplateEH (cannot_generate t n)]
+  | ILRowSetup t n => [IFTemplateEH (cannot_generate t n); IFTemplateEH (cannot_generate t n)]
+  | ILWrite t n => [IFTemplateEH M_write; IFTemplateEH (cannot_generate t n); IFTemplateEH (cannot_generate t n)]
+  end.
+
+Fixpoint iframes (path : list istep) (l : ileaf) : list iframe :=
+  match path with
+  | [] => ileaf_frames l ++ [IFGenerate]
+  | s :: r => iframes r l ++ istep_frames s
+  end.
+
+Definition escape_v (path : list istep) (l : ileaf) (e : exnv) : exnv :=
+  fold_left (fun e f => wrap_or_replace f e) (iframes path l) e.
+
+(* get_evaluator raises only after compiler_for_string found one of Jinja's opening delimiters in the text *)
+Fixpoint is_prefix (p s : string) : bool :=
+  match p, s with
+  | EmptyString, _ => true
+  | String a p', String b s' => Ascii.eqb a b && is_prefix p' s'
+  | _, EmptyString => false
+  end.
+Fixpoint contains (sub s : string) : bool :=
+  is_prefix sub s || match s with EmptyString => false | String _ r => contains sub r end.
+Definition jinja_delimiters : list string := ["${%"; "${{"; "<%"; "<<"].
+Definition compile_can_raise (definition : string) : bool :=
+  existsb (fun d => contains d definition) jinja_delimiters.
+Definition ileaf_possible (l : ileaf) : bool :=
+  match l with ILCompile d => compile_can_raise d | _ => true end.
+
+(* ================================================================== documents with anchors: a graph *)
+(* PyYAML turns `&a` / `*a` into shared Python objects: what parse_file receives is a graph.  A heap of
+   nodes, containers referring to their members by index, stands for it; check_no_recursive_aliases walks
+   it depth first with the path from the root (`ancestors`) and a memo of the containers it has finished
+   (`finished`, shared by the whole walk).  a_calls counts the invocations of the function. *)
+Inductive hnode := HLeaf (y : yaml) | HSeq (items : list nat) | HMap (kv : list (yaml * nat)).
+Definition heap := list hnode.
+
+Definition children (n : hnode) : list nat :=
+  match n with HLeaf _ => [] | HSeq l => l | HMap kv => map snd kv end.
+Definition is_container (n : hnode) : bool := match n with HLeaf _ => false | _ => true end.
+Definition memn (i : nat) (l : list nat) : bool := existsb (Nat.eqb i) l.
+
+Record astate := mkA { a_fin : list nat; a_calls : nat }.
+
+Definition aloop (rec : nat -> astate -> result astate) : list nat -> astate -> result astate :=
+  fix go cs st :=
+  match cs with
+  | [] => Ok st
+  | c :: r => do s1 <- rec c st; go r s1
+  end.
+
+Fixpoint acheck (h : heap) (fuel : nat) (anc : list nat) (i : nat) (st : astate) : result astate :=
+  match fuel with
+  | O => Err OutOfFuel
+  | S f =>
+    let st1 := mkA (a_fin st) (S (a_calls st)) in
+    match nth_error h i with
+    | None => Err BadOracle
+    | Some n =>
+      if negb (is_container n) || memn i (a_fin st1) then Ok st1   (* not a dict / list, or id(data) in finished *)
+      else if memn i anc then dge                                    (* id(data) in ancestors: recursive alias *)
+      else
+        do st' <- aloop (acheck h f (i :: anc)) (children n) st1;
+        Ok (mkA (i :: a_fin st') (a_calls st'))                      (* finished.add(id(data)) *)
+    end
+  end.
+
+(* the walk of a whole document *)
+Definition alias_fuel (h : heap) : nat := S (S (length h)).
+Definition alias_check (h : heap) (root : nat) : result astate := acheck h (alias_fuel h) [] root (mkA [] 0).
+
+(* the seeded variant: `finished = finished or set()` - an empty memo is replaced by a private one, what a
+   call adds is lost for its caller as long as the caller's own memo is empty: nothing is ever remembered *)
+Fixpoint acheck_nomemo (h : heap) (fuel : nat) (anc : list nat) (i : nat) (calls : nat) : result nat :=
+  match fuel with
+  | O => Err OutOfFuel
+  | S f =>
+    match nth_error h i with
+    | None => Err BadOracle
+    | Some n =>
+      if negb (is_container n) then Ok (S calls)
+      else if memn i anc then dge
+      else (fix go cs calls := match cs with
+                               | [] => Ok calls
+                               | c :: r => do k <- acheck_nomemo h f (i :: anc) c calls; go r k
+                               end) (children n) (S calls)
+    end
+  end.
+
+(* number of member slots of the whole heap: the size of the document as PyYAML holds it *)
+Definition kids (h : heap) (i : nat) : nat :=
+  match nth_error h i with Some n => length (children n) | None => O end.
+Definition edges (h : heap) : nat := list_sum (map (fun n => length (children n)) h).
+
+(* the tree a graph stands for (what the parser sees when it follows the references) *)
+Fixpoint unfold (h : heap) (fuel : nat) (i : nat) : result yaml :=
+  match fuel with
+  | O => Err OutOfFuel
+  | S f =>
+    match nth_error h i with
+    | None => Err BadOracle
+    | Some (HLeaf y) => Ok y
+    | Some (HSeq l) => do ys <- mapM (unfold h f) l; Ok (YSeq ys)
+    | Some (HMap kv) =>
+      do vs <- mapM (fun p => do v <- unfold h f (snd p); Ok (fst p, v)) kv; Ok (YMap vs)
+    end
+  end.
+
+(* parse_file on the main document: the alias check, then everything else on the tree *)
+Definition validate_graph (E : env) (ffuel mfuel : nat) (h : heap) (root : nat) : result unit :=
+  do _ <- alias_check h root;
+  do doc <- unfold h (S (length h)) root;
+  validate E ffuel mfuel doc.
+
 (* ------------------------------------------------------------------ correspondence cases *)
+Inductive fmtres := FROk (s : string) | FRErr (exc : string).
+
 Inductive case :=
 | CDoc (E : env) (doc : yaml) (expected : outcome)            (* static verdict on a loaded document *)
 | CText (how : loaderr) (expected : outcome)                  (* text PyYAML cannot load *)
-| CFault (path : list step) (l : leaf) (e : exn) (expected : exn).   (* an injected run-time exception *)
+| CFault (path : list step) (l : leaf) (e : exn) (expected : exn)   (* an injected run-time exception *)
+(* a document as a graph (anchors and aliases kept): static verdict, and the number of invocations of the
+   alias check observed on the implementation (0 = not observed) against the model's *)
+| CGraph (E : env) (h : heap) (root : nat) (expected : outcome) (impl_calls slack : Z)
+(* the alias check alone (graphs whose tree is too big to build): rejected as recursive or not *)
+| CAlias (h : heap) (root : nat) (recursive : bool) (impl_calls slack : Z)
+(* Python's own str.format on (template, args, kwargs) *)
+| CFmt (template : string) (args : list string) (kw : list (string * string)) (expected : fmtres)
+(* fix_exception(template, parent, e, args) of the implementation: class of what it returns / raises *)
+| CFix (template : string) (args : list string) (e : exnv) (expected : exn)
+(* an injected run-time exception with all the text around it: class leaving generate, whether the
+   DataGenError has a message and a line *)
+| CFaultV (path : list istep) (l : ileaf) (e : exnv) (expected : exn) (has_msg has_line : bool).
+
+Definition calls_within (impl_calls slack : Z) (st : astate) : bool :=
+  Z.leb impl_calls (Z.of_nat (a_calls st) + slack).
+
+Definition fmtres_eqb (a b : fmtres) : bool :=
+  match a, b with
+  | FROk x, FROk y | FRErr x, FRErr y => String.eqb x y
+  | _, _ => false
+  end.
+
+Definition static_agrees (r : result unit) (expected : outcome) : bool :=
+  match r with
+  | Err Unsupported => true
+  | r => match classify r with Some o => outcome_eqb o expected | None => false end
+  end.
 
 Definition check_case (c : case) : bool :=
   match c with
-  | CDoc E doc expected =>
-    match validate E FFUEL MFUEL doc with
-    | Err Unsupported => true
-    | r => match classify r with Some o => outcome_eqb o expected | None => false end
-    end
+  | CDoc E doc expected => static_agrees (validate E FFUEL MFUEL doc) expected
   | CText how expected =>
     match classify (@load_failure unit how) with Some o => outcome_eqb o expected | None => false end
   | CFault p l e expected => exn_eqb (escape p l e) expected
+  | CGraph E h root expected impl_calls slack =>
+    match alias_check h root with
+    | Ok st => calls_within impl_calls slack st && static_agrees (validate_graph E FFUEL MFUEL h root) expected
+    | Err (DGE _) => outcome_eqb OReject expected
+    | Err _ => false
+    end
+  | CAlias h root recursive impl_calls slack =>
+    match alias_check h root with
+    | Ok st => negb recursive && calls_within impl_calls slack st
+    | Err (DGE _) => recursive
+    | Err _ => false
+    end
+  | CFmt t args kw expected =>
+    match py_format t args kw with
+    | Ok s => fmtres_eqb (FROk s) expected
+    | Err (Internal x) => fmtres_eqb (FRErr x) expected
+    | Err Unsupported => true
+    | Err _ => false
+    end
+  | CFix t args e expected =>
+    match fix_exception t args e with
+    | Ok e' => exn_eqb (x_cls e') expected
+    | Err (Internal x) => exn_eqb (EPy x) expected
+    | Err Unsupported => true
+    | Err _ => false
+    end
+  | CFaultV p l e expected has_msg has_line =>
+    let r := escape_v p l e in
+    exn_eqb (x_cls r) expected &&
+    (* what the model promises must hold on the implementation (not the converse: the code may say more) *)
+    (if is_dge r then implb (nonempty (x_msg r)) has_msg && implb (x_line r) has_line else true)
   end.
 
-(* cases outside the modelled fragment (a parser-macro plugin is declared) *)
+(* cases outside the modelled fragment (a parser-macro plugin is declared; a format template with
+   conversions / format specs / attribute access) *)
 Definition case_unsupported (c : case) : bool :=
   match c with
   | CDoc E doc _ => match validate E FFUEL MFUEL doc with Err Unsupported => true | _ => false end
+  | CGraph E h root _ _ _ =>
+    match validate_graph E FFUEL MFUEL h root with Err Unsupported => true | _ => false end
+  | CFmt t args kw _ => match py_format t args kw with Err Unsupported => true | _ => false end
+  | CFix t args e _ => match fix_exception t args e with Err Unsupported => true | _ => false end
   | _ => false
   end.
